@@ -296,4 +296,4 @@ Fixpoint pp_program (first : bool) (p : list stmt) (ln : N) : list byte * N :=
               let '(b, ln2) := pp_program false r ln1 in (a ++ b, ln2)
   end.
 
-Definition pretty_program (p : program) : list byte := fst (pp_program true p 1) ++ lit (String "010" "").
+Definition pretty_program (p : program) : list byte := fst (pp_program true p 1) ++ ["010"%byte].
